@@ -141,7 +141,10 @@ def _guard_call_functions(a) -> dict:
                 body = ''.join(x.text for x in toks[bs:be + 1])
                 if 'if' in pat:
                     g = pat[pat.index('if'):]
-                    if '(' in g and '__arm_outside_contract' not in body:
+                    # a call: `name (` or `. name (` — not a macro invocation such as `matches ! (..)` and not a parenthesised group
+                    has_call = any(g[q] == '(' and q > 0 and re.match(r'[A-Za-z_][A-Za-z0-9_]*$', g[q - 1]) and g[q - 1] not in ('if', 'in', 'as', 'match', 'return')
+                                   for q in range(len(g)))
+                    if has_call and '__arm_outside_contract' not in body:
                         out[it.ident] = 'exec call inside a match guard (its postcondition is not available to Verus 0.2026.09.13)'
     return out
 
